@@ -59,7 +59,8 @@ Fixpoint run_ops (s : store) (xs : list sx) : list sx :=
   | [] => []
   | x :: xs' =>
       let '(s', r, done) :=
-        if Z.eqb (sx_Z (sx_nth 0 x)) 12 || Z.eqb (sx_Z (sx_nth 0 x)) 15
+        if Z.eqb (sx_Z (sx_nth 0 x)) 17 then (s, OErr, 0)   (* a document refused by the parser: nothing is touched *)
+        else if Z.eqb (sx_Z (sx_nth 0 x)) 12 || Z.eqb (sx_Z (sx_nth 0 x)) 15
         then annotate_batch s (map abuild_of_sx (tl (sx_list x)))
         else if Z.eqb (sx_Z (sx_nth 0 x)) 13
         then let '(s1, r1) := add_set_with s (sx_nat (sx_nth 1 x)) (map dbuild_of_sx (sx_list (sx_nth 2 x))) in (s1, r1, 0)
